@@ -22,7 +22,7 @@ Next ==
   \/ \E r \in Replica, runs \in RunChoices : Room(Len(runs)) /\ NewBug(r, runs, Rk)
   \/ \E r \in Replica, b \in Bugs, runs \in RunChoices : Room(Len(runs)) /\ Edit(r, b, runs, Rk)
   \/ \E r \in Replica, b \in Bugs : Read(r, b)
-  \/ \E r \in Replica : Push(r)
+  \/ \E r \in Replica : (\E b \in Bugs : ref[r][b] # 0) /\ Push(r)
   \/ \E r \in Replica : Fetch(r)
   \/ \E r \in Replica, b \in Bugs : Room(1) /\ Merge(r, b, a1, Rk)
   \/ WithRestart /\ \E r \in Replica, l \in (IF LoaderLess THEN BOOLEAN ELSE {TRUE}) : Reopen(r, l)
@@ -32,7 +32,7 @@ Spec == Init /\ [][Next]_vars
 
 (* only synchronisation steps: used for the liveness clause of C01 *)
 SyncNext ==
-  \/ \E r \in Replica : Push(r)
+  \/ \E r \in Replica : (\E b \in Bugs : ref[r][b] # 0) /\ Push(r)
   \/ \E r \in Replica : Fetch(r)
   \/ \E r \in Replica, b \in Bugs : Room(1) /\ Merge(r, b, a1, Rk)
 
